@@ -48,12 +48,18 @@ impl<'a> BerDecoder<'a> for SnmpReal {
                     // Truncated exponent
                     return Err(SnmpError::InvalidData);
                 }
-                let e = SnmpReal::parse_u32(&i[1..ln]) as i32;
+                // Two's complement exponent, X.690 pp 8.5.7.4
+                let e = i[1..ln]
+                    .iter()
+                    .fold(if i[1] & 0x80 == 0 { 0i32 } else { -1i32 }, |acc, &x| {
+                        (acc << 8) | (x as i32)
+                    });
                 let mut v: f64 = SnmpReal::parse_u32(&i[ln..]).into();
                 // 8.5.7.3: Bits 4 to 3 of the first contents octet shall
                 // encode the value of the binary scaling factor F
                 // as an unsigned binary integer.
                 match (f & 0x0c) >> 2 {
+                    0 => {}
                     1 => v *= 2.0,
                     2 => v *= 4.0,
                     3 => v *= 8.0,
